@@ -82,6 +82,26 @@ theorem failure_eq (cur : Nat) (mb : Option Nat) :
   rw [h]
   dur_arith
 
+/-- comparison operators of `[debug_]assert!` -/
+def cmpHolds (op : String) (x y : Nat) : Bool :=
+  if op = ">=" then y ≤ x else if op = "<=" then x ≤ y else if op = ">" then y < x else if op = "<" then x < y
+  else if op = "==" then x == y else if op = "!=" then x != y else false
+
+/-- an assertion fires (or its operands panic) → `false` -/
+def assertOk (cur : Nat) (mb : Option Nat) (a : DurExpr × String × DurExpr) : Bool :=
+  match eval cur mb a.1, eval cur mb a.2.2 with
+  | some x, some y => cmpHolds a.2.1 x y
+  | _, _ => false
+
+/-- every `[debug_]assert!` the source places on the transport-failure path holds for all intervals and ceilings
+(so adding one is behaviour-preserving exactly when this theorem is provable) -/
+theorem failure_asserts_hold (cur : Nat) (mb : Option Nat) : transportFailureAsserts.all (assertOk cur mb) = true := by
+  unfold transportFailureAsserts
+  first
+    | rfl
+    | (simp [List.all, assertOk, cmpHolds, eval] <;> (try generalize Option.getD _ _ = m) <;>
+        (try simp only [durMax, sec]) <;> (try omega))
+
 /-- **authorization_pending**: the interval is kept -/
 theorem pending_eq (cur : Nat) (mb : Option Nat) (ceil : Nat) :
     pendingExpr.bind (eval cur mb) = next ceil cur .pending := by
@@ -174,11 +194,11 @@ theorem loops_same :
     (loops.map (·.fn_)).Perm ["request", "request_async"] ∧
     (loopOf "request").map skeleton = (loopOf "request_async").map skeleton ∧
     (loopOf "request").map (·.awaits) = some [] ∧
-    (loopOf "request_async").map (·.awaits) = some ["http_client.call", "sleep_fn"] := by
+    (loopOf "request_async").map (·.awaits) = some ["p0.call", "p1"] := by
   refine ⟨?_, ?_, ?_, ?_⟩ <;> decide +kernel
 
 def breakIfs (l : PollLoop) : List (String × String × String) :=
-  l.body.filterMap fun | .breakIf a op b _ => some (a, op, b) | _ => none
+  l.body.filterMap fun | .breakIf a op b _ _ => some (a, op, b) | _ => none
 
 def varOf (l : PollLoop) (init : String) : Option String :=
   match l.prelude.find? (·.2.2 = init), l.body.findSome? (fun | .bind v e => if e = init then some v else none | _ => none) with
@@ -188,17 +208,26 @@ def varOf (l : PollLoop) (init : String) : Option String :=
 
 /-- the only conditional exit compares the clock value just read with the deadline computed before the loop -/
 def deadlineIs (op : String) (l : PollLoop) : Bool :=
-  match varOf l "(*self.time_fn)()", varOf l "self.compute_timeout(timeout)?" with
+  match varOf l "(*self.time_fn)()", varOf l "self.compute_timeout(p2)?" with
   | some now, some dl => breakIfs l == [(now, op, dl)]
   | _, _ => false
 
+/-- what the conditional exit yields: an `Err` that is a `ServerResponse` error of the device-code error type with
+the code `ExpiredToken` (the variant the generated error table gives for "expired_token").  The human-readable
+description is not part of any property and is not looked at. -/
+def expiredExit (l : PollLoop) : Bool :=
+  match Gen.ErrorTables.deviceErrorFromStr.arms.lookup "expired_token" with
+  | some v =>
+    (l.body.filterMap fun | .breakIf _ _ _ c ps => some (c, ps) | _ => none).all fun (c, ps) =>
+      c == "Err" && ps.contains "RequestTokenError::ServerResponse" &&
+      ps.contains ("DeviceCodeErrorResponseType::" ++ v) &&
+      (ps.filter fun p => p.startsWith "DeviceCodeErrorResponseType::") == ["DeviceCodeErrorResponseType::" ++ v]
+  | none => false
+
 /-- **deadline test**: in each loop the only conditional exit compares the clock value just read with the
 deadline computed before the loop, with the operator `>` (expired only when strictly past the deadline), and
-yields `expired_token` -/
-theorem deadline_op : ∀ l ∈ loops,
-    deadlineIs ">" l = true ∧
-    (l.body.filterMap fun | .breakIf _ _ _ r => some r | _ => none) =
-      ["Err(RequestTokenError::ServerResponse(DeviceCodeErrorResponse::new(DeviceCodeErrorResponseType::ExpiredToken,Some(String::from(\"This device code has expired.\")),None)))"] := by
+yields the synthetic `expired_token` error -/
+theorem deadline_op : ∀ l ∈ loops, deadlineIs ">" l = true ∧ expiredExit l = true := by
   decide +kernel
 
 def tagOf : LoopStmt → String
@@ -213,7 +242,7 @@ def exchangeOk (l : PollLoop) : Bool :=
   match varOf l "self.dev_auth_resp.interval()" with
   | some iv =>
     (l.body.filterMap fun | .exchange calls i arms => some (calls, i, arms) | _ => none) ==
-      [(["self.prepare_request()?", "http_client.call", "self.process_response"], iv,
+      [(["self.prepare_request()?", "p0.call", "self.process_response"], iv,
         [(continueVariant, iv ++ "=it"), (doneVariant, "break it")])] &&
     (l.body.filterMap fun | .call _ args => some args | _ => none) == [[iv]]
   | none => false
@@ -222,9 +251,9 @@ def exchangeOk (l : PollLoop) : Bool :=
 clock, test the deadline, prepare + send + process one request, then sleep for the interval just computed;
 the interval starts as the server's and is replaced only by what `process_response` continues with -/
 theorem loop_order : ∀ l ∈ loops,
-    l.body.map tagOf = ["time", "deadline", "exchange", "sleep_fn"] ∧
+    l.body.map tagOf = ["time", "deadline", "exchange", "p1"] ∧
     exchangeOk l = true ∧
-    l.prelude.map (·.2.2) = ["self.compute_timeout(timeout)?", "self.dev_auth_resp.interval()"] := by
+    l.prelude.map (·.2.2) = ["self.compute_timeout(p2)?", "self.dev_auth_resp.interval()"] := by
   decide +kernel
 
 /-! non-vacuity -/
@@ -236,6 +265,7 @@ example : loops.length = 2 := by decide
 end GenPoll
 
 #print axioms GenPoll.failure_eq
+#print axioms GenPoll.failure_asserts_hold
 #print axioms GenPoll.pending_eq
 #print axioms GenPoll.slowdown_eq
 #print axioms GenPoll.next_eq
